@@ -115,8 +115,8 @@ func (w *world) listenerName(class string, pick int) string {
 			return t
 		}
 	case "collide:prefix-of-other":
-		if len(other) > 1 {
-			return other[:len(other)-1]
+		if r := []rune(other); len(r) > 1 {
+			return string(r[:len(r)-1])
 		}
 	case "collide:other-plus-suffix":
 		if other != "" {
